@@ -1008,6 +1008,15 @@ pub fn gen_c09(ctx: &Ctx, run: u64) -> C09Plan {
     follow.stop_at_poll = None;
     follow.clock_events.clear();
     steps.push(follow);
+    // damage to the shared tables may only show in a later search: sometimes a third one, on the
+    // cancelled search's own position
+    if rng.chance(1, 3) {
+        let mut third = steps[target].clone();
+        third.go = GoSpec::depth(rng.range(2, (target_depth as u64 + 1).min(6)) as u8);
+        third.stop_at_poll = None;
+        third.clock_events.clear();
+        steps.push(third);
+    }
     C09Plan { base: ScenarioB { initial_hash_mb, poll_interval, tau_ps, clock_read_step_ns: gen_read_step(&mut rng), steps }, target, via_clock }
 }
 
@@ -1237,7 +1246,13 @@ pub fn gen_c13(ctx: &Ctx, run: u64) -> ScenarioA {
     for _ in 0..rounds {
         // a burst of option changes, in seeded order, before the first / between searches
         for _ in 0..rng.range(1, 4) {
-            script.push(Intent::SetSpin { name: format!("#{}", rng.below(8)), pick: gen_pick(&mut rng) });
+            let again = script.iter().rev().find(|i| matches!(i, Intent::SetSpin { .. })).cloned();
+            match again {
+                // the same value once more, or the same option with another value right away
+                Some(prev) if rng.chance(1, 6) => script.push(prev),
+                Some(Intent::SetSpin { name, .. }) if rng.chance(1, 6) => script.push(Intent::SetSpin { name, pick: gen_pick(&mut rng) }),
+                _ => script.push(Intent::SetSpin { name: format!("#{}", rng.below(8)), pick: gen_pick(&mut rng) }),
+            }
             if rng.chance(2, 3) {
                 script.push(Intent::IsReady);
             }
@@ -1304,7 +1319,7 @@ pub fn run_c13(ctx: &Ctx, run: u64) -> RunReport {
 // C14 — time allocation never exceeds what the clock allows
 // =================================================================================================
 
-const C14_R: [u64; 15] = [0, 1, 5, 10, 50, 99, 100, 150, 199, 200, 201, 500, 1_000, 60_000, 3_600_000];
+const C14_R: [u64; 18] = [0, 1, 5, 10, 50, 99, 100, 150, 199, 200, 201, 500, 1_000, 60_000, 3_600_000, 86_400_000, 4_294_967_296, 1_099_511_627_776];
 
 fn gen_c14_tuple(rng: &mut Rng, white_to_move: bool) -> (GoSpec, u64) {
     // remaining time of the side to move
